@@ -197,7 +197,7 @@ func C04(c *vf.Ctx) {
 	c.Assume = append(c.Assume, sysAssumeObs, sysAssumeUnits,
 		"after the cancel stimulus neither the peer nor the transport cooperates (no write is released, nothing is delivered) until the blocked calls have been judged",
 		"a call parked inside the user's own Unmarshal is user code and is not counted as blocked in drpc")
-	nT, nR := sizes(c, 20, 60, 300, 1500)
+	nT, nR := sizes(c, 4, 40, 60, 1500)
 	var res string
 	fam := sysFamily{prop: "C04", maxRPC: 2, plen: 10,
 		cfgs: []sys.Config{
@@ -209,6 +209,7 @@ func C04(c *vf.Ctx) {
 		kinds:   []string{"start", "hstep", "relw", "deliver"},
 		weights: map[string]int{"invoke": 2, "newstream": 3, "op": 8, "hstep": 5, "relw": 5, "deliver": 5},
 		tail: func(w *sys.World, rng *rand.Rand, ts *tailState) {
+			res = "skipped"
 			if w.NRPC() == 0 {
 				return
 			}
@@ -233,11 +234,17 @@ func C04(c *vf.Ctx) {
 					ts.Notes["laterThread"], ts.Notes["laterOp"] = t, op
 				}
 			}
-			// now the world moves again: the cancellation or disconnect reaches the peer
+			// now the world moves again: the cancellation or disconnect reaches the peer; the handler drains what it was sent
 			w.Flow(60, nil)
+			for i := 0; i < 3 && strings.HasPrefix(w.Last().App["sv"], "h:"); i++ {
+				w.Step(sys.Stim{K: "hstep", A: "recv"})
+				w.Flow(30, nil)
+			}
 			ts.mark(w, "flowed")
-			w.Flow(60, func(w *sys.World) string { return "retnil" })
-			res = probe(w, ts)
+			res = "skipped"
+			if endAll(w, hDrain) {
+				res = probe(w, ts)
+			}
 		},
 		mons: []func(*runView) []finding{monWire},
 		post: func(v *runView, ts *tailState) (out []finding) {
@@ -258,6 +265,19 @@ func C04(c *vf.Ctx) {
 					continue // had returned before the cancel
 				}
 				wasBlocked := parkedInDrpc(before.App[op.T])
+				bw := v.r.Lines[ts.Marks["before"]].Where[op.T]
+				// what the call was waiting for: a message / its turn (receive-like), or the write side (send-like)
+				recvLike := strings.Contains(bw, "packetBuffer).Get") || strings.Contains(bw, "acquireSemaphore") || strings.Contains(bw, "waitForPreviousStream")
+				// a terminal call of the application itself was already under way on this RPC: its error may win
+				localTerm := false
+				for _, q := range v.ops {
+					if q.R == r && q.Start <= ts.Marks["before"] && (q.Kind == "Close" || q.Kind == "CloseSend") {
+						localTerm = true
+					}
+				}
+				localErr := func(x string) bool {
+					return localTerm && (x == "termClosed" || x == "sendClosed" || x == "termBoth" || x == "EOF")
+				}
 				if parkedInDrpc(st) {
 					out = append(out, finding{"C04", fmt.Sprintf("call of a cancelled RPC still blocked inside drpc after the cancel (%s, %s) [%s]",
 						op.Kind, map[bool]string{true: "soft", false: "hard"}[v.r.Cfg.Soft], whereSig(o.Where)), at, map[string]any{"op": op, "where": o.Where}})
@@ -266,20 +286,24 @@ func C04(c *vf.Ctx) {
 				if wasBlocked && strings.HasPrefix(st, "ret:") {
 					res := st[4:]
 					switch {
-					case op.Kind == "Recv" || op.Kind == "Invoke" || op.Kind == "NewStream":
-						// a blocked receive (or a unary call / stream creation waiting for the peer) reports the context's error;
-						// a reply that had already arrived may still be returned
-						if res != "Canceled" && !strings.HasPrefix(res, "msg:") && !(op.Kind != "Recv" && res == "stream") {
-							out = append(out, finding{"C04", fmt.Sprintf("blocked %s of a cancelled RPC returned %s, not the context's error", op.Kind, res), at, map[string]any{"op": op}})
+					case recvLike && (op.Kind == "Recv" || op.Kind == "Invoke" || op.Kind == "NewStream"):
+						// a blocked receive (or a call waiting for its reply / its turn) reports the context's error;
+						// a message that had already arrived may still be returned
+						if res != "Canceled" && !strings.HasPrefix(res, "msg:") && !localErr(res) {
+							out = append(out, finding{"C04", fmt.Sprintf("blocked %s of a cancelled RPC returned %s, not the context's error", op.Kind, res), at, map[string]any{"op": op, "was": bw}})
 						}
-					case (op.Kind == "Send1" || op.Kind == "Send2") && !v.r.Cfg.Soft:
-						if res != "Canceled" {
-							out = append(out, finding{"C04", fmt.Sprintf("blocked send of a cancelled RPC returned %s, not the context's error (hard cancel)", res), at, map[string]any{"op": op}})
+					case !recvLike && !v.r.Cfg.Soft && (op.Kind == "Send1" || op.Kind == "Send2" || op.Kind == "Invoke" || op.Kind == "NewStream"):
+						// default mode: a send blocked in the transport reports the context's error; one that was still queued
+						// behind another writer behaves like a later send (io.EOF). An error the director injected into an
+						// earlier write of the same call keeps precedence.
+						inTransport := before.App[op.T] == "tw"
+						if res != "Canceled" && !localErr(res) && !v.relwErr && !(res == "EOF" && !inTransport) {
+							out = append(out, finding{"C04", fmt.Sprintf("blocked send (%s) of a cancelled RPC returned %s, not the context's error (hard cancel)", op.Kind, res), at, map[string]any{"op": op, "was": bw}})
 						}
 					}
 				}
 			}
-			if lt, ok := ts.Notes["laterThread"]; ok {
+			if lt, ok := ts.Notes["laterThread"]; ok && len(out) == 0 {
 				lo := v.r.Lines[ts.Marks["later"]].Obs.App[lt]
 				if lo == "ret:nil" || strings.HasPrefix(lo, "ret:msg:") {
 					// a message that was already buffered may legitimately be received; a send must fail
@@ -287,7 +311,15 @@ func C04(c *vf.Ctx) {
 						out = append(out, finding{"C04", "send on a cancelled RPC succeeded", ts.Marks["later"], nil})
 					}
 				} else if parkedInDrpc(lo) {
-					out = append(out, finding{"C04", fmt.Sprintf("call made after the cancel blocks [%s]", whereSig(v.r.Lines[ts.Marks["later"]].Where)), ts.Marks["later"], nil})
+					ll := v.r.Lines[ts.Marks["later"]]
+					how := "hard"
+					if v.r.Cfg.Soft {
+						how = "soft"
+						if ll.Obs.Lib["ms_cli"] == "tw" {
+							how = "soft, cancel packet parked in the stalled transport"
+						}
+					}
+					out = append(out, finding{"C04", fmt.Sprintf("call made after the cancel blocks (%s) [%s]", how, whereSig(ll.Where)), ts.Marks["later"], nil})
 				}
 			}
 			// the peer handler's stream context is done once the cancellation or disconnect reached it
@@ -301,7 +333,8 @@ func C04(c *vf.Ctx) {
 					}
 				}
 				// the handler is serving this stream iff it was entered for sid and has not returned
-				if handlerOnIt && strings.HasPrefix(fo.App["sv"], "h:") && !fo.HCtx && streamEntered(v, sid, ft) && (fo.TClose["cli"] > 0 || cancelReached(v, sid)) {
+				reached := fo.Lib["rd_srv"] == "tr" || fo.Lib["rd_srv"] == "done" // the server's reader has consumed everything that was sent
+				if handlerOnIt && reached && strings.HasPrefix(fo.App["sv"], "h:") && !fo.HCtx && streamEntered(v, sid, ft) && (fo.TClose["cli"] > 0 || cancelReached(v, sid)) {
 					out = append(out, finding{"C04", "the cancellation reached the peer but the handler's stream context is not done", ft, nil})
 				}
 			}
@@ -340,7 +373,7 @@ func cancelReached(v *runView, sid int) bool {
 func C05(c *vf.Ctx) {
 	c.Assume = append(c.Assume, sysAssumeObs, sysAssumeUnits,
 		"fault model: from the fault on, the failing endpoint's transport fails every pending and later Read and Write (a dead socket); the peer learns of it as end-of-stream after what was already written")
-	nT, nR := sizes(c, 20, 80, 300, 2000)
+	nT, nR := sizes(c, 4, 50, 60, 2000)
 	fam := sysFamily{prop: "C05", maxRPC: 2, plen: 12,
 		cfgs: []sys.Config{
 			{Small: true, Threads: thr2},
@@ -405,7 +438,7 @@ func C05(c *vf.Ctx) {
 					out = append(out, finding{"C05", "client connection not closed after the failure reached both sides", st, nil})
 				}
 			}
-			if lt, ok := ts.Notes["laterThread"]; ok {
+			if lt, ok := ts.Notes["laterThread"]; ok && len(out) == 0 {
 				lo := v.r.Lines[ts.Marks["later"]].Obs.App[lt]
 				if parkedInDrpc(lo) || strings.HasPrefix(lo, "ret:msg:") {
 					out = append(out, finding{"C05", "Invoke issued after the failure did not fail: " + lo, ts.Marks["later"], nil})
@@ -437,7 +470,7 @@ func C12(c *vf.Ctx) {
 	c.Assume = append(c.Assume, sysAssumeObs, sysAssumeUnits,
 		"the transport lets go of pending I/O when it is closed (parked Reads and Writes return an error)",
 		"a handler that is running when the server context is cancelled returns when asked to (user code)")
-	nT, nR := sizes(c, 20, 80, 300, 2000)
+	nT, nR := sizes(c, 4, 50, 60, 2000)
 	fam := sysFamily{prop: "C12", maxRPC: 2, plen: 12,
 		cfgs: []sys.Config{
 			{Small: true, Threads: thr3},
@@ -570,7 +603,7 @@ func C12(c *vf.Ctx) {
 
 func C07(c *vf.Ctx) {
 	c.Assume = append(c.Assume, sysAssumeObs, sysAssumeUnits)
-	nT, nR := sizes(c, 20, 70, 300, 2000)
+	nT, nR := sizes(c, 4, 50, 60, 2000)
 	fam := sysFamily{prop: "C07", maxRPC: 3, plen: 18,
 		cfgs: []sys.Config{
 			{Small: true, Soft: true, Threads: thr3},
@@ -601,7 +634,7 @@ func C01(c *vf.Ctx) {
 	c.Assume = append(c.Assume, sysAssumeObs, sysAssumeUnits,
 		"payloads carry (stream or rpc tag, sequence number) in every frame; the harness's own parser reads them off the wire, so corruption, merging or truncation of a payload changes a tag or a frame count",
 		"submission order is the order in which the messages' first frames reach the transport")
-	nT, nR := sizes(c, 20, 60, 300, 2000)
+	nT, nR := sizes(c, 4, 50, 60, 2000)
 	fam := sysFamily{prop: "C01", maxRPC: 2, plen: 22,
 		cfgs: []sys.Config{
 			{Small: true, Threads: thr3},
@@ -637,7 +670,7 @@ func C01(c *vf.Ctx) {
 func C02(c *vf.Ctx) {
 	c.Assume = append(c.Assume, sysAssumeObs, sysAssumeUnits,
 		"every payload, error text and rpc name carries the identity of the RPC/stream that produced it")
-	nT, nR := sizes(c, 20, 70, 300, 2000)
+	nT, nR := sizes(c, 4, 50, 60, 2000)
 	fam := sysFamily{prop: "C02", maxRPC: 4, plen: 26,
 		cfgs: []sys.Config{
 			{Small: true, Soft: true, Threads: thr3},
